@@ -5,8 +5,10 @@ use rustfmt_nightly::verif_hooks as hooks;
 use serde_json::{json, Value};
 use std::io::{self, BufRead, Write};
 
+mod c11;
 mod c12;
 mod c17;
+mod fmt;
 
 fn main() {
     let args: Vec<String> = std::env::args().collect();
@@ -16,7 +18,9 @@ fn main() {
     }
     let sub = args[1].as_str();
     let f: fn(&Value) -> Value = match sub {
+        "c11" => c11::run,
         "c12" => c12::run,
+        "fmt" => fmt::run,
         "c17" => c17::run,
         _ => {
             eprintln!("unknown subcommand {sub}");
